@@ -232,6 +232,19 @@ CLAIMED = {
              "(no bounded encoding of 'all models'). Trusted: z3, symx NumPy proxies (NEP 50 promotion, validated against the installed NumPy in every run).",
         technique="dynamic symbolic execution of the real Python functions over z3 proxies (symx) incl. NumPy fixed-width/Python int promotion semantics, bounded; counterexample replay",
         design="DESIGN.md §3 C13"),
+    "C14": dict(
+        text="Bounded solver verdict on the mechanisms the property names (a lemma set, not byte identity of output files): the REAL "
+             "HillClimbAllocator.allocate() with the random module replaced by a recording stand-in whose draws are symbolic until seeded - every draw "
+             "of the search comes after random.seed(1), so the placement does not depend on what used the generator before; `vela NETWORK` with default "
+             "options, convert() and convert_bytes() hand the same architecture arguments, tensor allocator, optimisation strategy and SRAM target to "
+             "the compiler (constructors replaced by recorders); and second-use-in-one-process lemmas that run the real code twice: driver payloads "
+             "for every ordered accelerator pair, CascadeBuilder.build_cascades twice, the weight and scale encoding caches (a request that differs "
+             "in one codec input or in bias values / IFM scale / OFM scale is encoded afresh; an identical one is served from the cache), lookup-table "
+             "equivalence ids (equal iff equal contents, symbolic entries), address ranges of a strided view analysed after an identical dense one.",
+        note="Partial: byte identity of written models and summaries, PYTHONHASHSEED-dependent iteration orders, DebugDatabase / TensorAddressMap "
+             "contents across compilations are outside. Trusted: z3, symx proxies; readers, compiler driver and writers are stubs in the entry-point lemma.",
+        technique="dynamic symbolic execution of the real Python functions over z3 proxies (symx), bounded; symbolic generator pre-state; run-twice lemmas; counterexample replay",
+        design="DESIGN.md §3 C14"),
 }
 
 NOT_APPLICABLE = {
@@ -239,7 +252,6 @@ NOT_APPLICABLE = {
     "C07": "the weight codec is C (mlw_encode.c); no C symbolic engine (CBMC/KLEE) in the sandbox and CrossHair realises at the extension boundary (DESIGN §5)",
     "C11": "flatbuffer (de)serialisation and graph partitioning: object graphs and byte buffers realised at the flatbuffers/NumPy boundary, nothing arithmetic to quantify over (DESIGN §5)",
     "C12": "needs the written output file and summary CSV of whole compilations; its arithmetic core (non-overlap, alignment, reported total) is decided under C05 (DESIGN §5)",
-    "C14": "determinism across process histories depends on uuid4, hash seeds, dict/set iteration and module caches, i.e. interpreter state, not a function of encodable inputs (DESIGN §5)",
 }
 
 PENDING = {}  # id -> reason, for properties planned but whose check is not yet registered
